@@ -193,7 +193,19 @@ def opCheck (j : Json) : Except String Json := do
     ("styles_ok", jBool stylesOk),
     ("cst", cstJ)]
 
+/-- value of one expression on one concrete system by the Lean parser and the concrete term semantics
+(C11: target expressions of a top file, evaluated independently of the real matcher) -/
+def opEval (j : Json) : Except String Json := do
+  let s ← getCps j "expr"
+  let sys ← sysFromJson j
+  match parse s with
+  | .error e => return Json.mkObj [("value", Json.null), ("error", jStr (errName e))]
+  | .ok e =>
+    match evalConcrete e sys with
+    | some b => return Json.mkObj [("value", jBool b), ("error", Json.null)]
+    | none => return Json.mkObj [("value", Json.null), ("error", Json.null)]
+
 def ops : List (String × Op) :=
-  [("matcher.parse", opParse), ("matcher.check", opCheck)]
+  [("matcher.parse", opParse), ("matcher.check", opCheck), ("matcher.eval", opEval)]
 
 end Driver.Matcher
